@@ -449,6 +449,38 @@ Seamed(r, nf, bits) ==
                                                 e == EntryC(ta, LAMBDA x : rc.am[x] = rc.am[c0]) IN IF e < 0 THEN 0 ELSE e
                                        ELSE -1]]
 
+\* ---------------------------------------------------------------- the attribute decoder headers (CreateAttributesDecoder)
+\* nad attribute-data blocks were announced with the connectivity; every attribute decoder names one (id >= 0) or the position data (any negative
+\* id), a decoder type (0: per vertex, over the position table; anything else: per corner, over the block's own table) and a traversal method.
+RECURSIVE AttHeader(_, _, _, _, _)
+AttHeader(nad, decs, i, used, pos) ==
+  IF i > Len(decs) THEN "ok" ELSE
+  LET id == decs[i][1]  ty == decs[i][2]  tr == decs[i][3] IN
+  IF id >= 0 /\ id >= nad THEN "rej:attribute-data-id"
+  ELSE IF id >= 0 /\ id \in used THEN "rej:attribute-data-used-twice"
+  ELSE IF id < 0 /\ pos THEN "rej:position-data-used-twice"
+  ELSE IF tr >= 2 THEN "rej:traversal-method"
+  ELSE IF ty # 0 /\ tr # 0 THEN "rej:corner-attribute-traversal"
+  ELSE IF ty # 0 /\ id < 0 THEN "rej:corner-attribute-without-data"
+  ELSE AttHeader(nad, decs, i + 1, IF id >= 0 THEN used \cup {id} ELSE used, pos \/ id < 0)
+\* values each decoder reads (one per vertex its traversal reports), and the geometry: with attribute data the points are those of Seamed under "no
+\* interior seam" (every block reads its own all-zero seam bits)
+HeaderCase(r, nf, nad, decs) ==
+  LET h == AttHeader(nad, decs, 1, {}, FALSE)
+      sm == IF nad = 0 THEN [out |-> r.out, np |-> r.np, faces |-> r.faces, used |-> 0] ELSE Seamed(r, nf, <<>>)
+      d == IF nad = 0 THEN r.d ELSE r.du
+      es == EdgeSeams(d, SeamCorners(d, nf, <<>>).sc)
+      vs == VertSeams(d, es)
+      C == 0..(3 * nf - 1)
+      rc == ARecompute(d, es, vs, 0, [c \in C |-> INV], <<>>)
+      da == [opp |-> [c \in C |-> AOpp(d, es, c)], ctv |-> rc.am, vc |-> rc.alm]
+      cnt(k) == IF decs[k][2] # 0 THEN Len(Traverse(da, nf).order)
+                ELSE IF decs[k][3] = 1 THEN Len(TraversePD(d, nf).order) ELSE Len(Traverse(d, nf).order)
+  IN IF r.out # "acc" THEN [out |-> "none", np |-> 0, faces |-> <<>>, used |-> 0, cnt |-> <<>>]
+     ELSE IF h # "ok" THEN [out |-> h, np |-> 0, faces |-> <<>>, used |-> sm.used, cnt |-> [k \in 1..Len(decs) |-> 0]]
+     ELSE IF sm.out # "acc" THEN [out |-> sm.out, np |-> 0, faces |-> <<>>, used |-> sm.used, cnt |-> [k \in 1..Len(decs) |-> 0]]
+     ELSE [out |-> "acc", np |-> sm.np, faces |-> sm.faces, used |-> sm.used, cnt |-> [k \in 1..Len(decs) |-> cnt(k)]]
+
 \* ---------------------------------------------------------------- the whole connectivity decode
 \* syms in DECODER order; ev = <<src, split, edge>> triples ascending in src; sb = start-face bits
 Decode(syms, nv, nf, nss, ev, sb) ==
